@@ -89,10 +89,10 @@ CHECKS["C14"] = dict(level="model_checking", technique="matrix of ill-typed valu
          "transition after 0-2 inserts followed by all() and count(); each path runs in the four configurations and TLC requires ValueError/TypeError, unchanged contents (the projection "
          "type-checks every stored value through the theme) and well-typed reads afterwards. Random histories with callables returning invalid values are judged too.",
     note=_CORE_NOTE + " Falsy static time/measurement arguments of update() mean 'argument absent' and are not generated.", design_ref="DESIGN.md section 5, C14")
-CHECKS["C15"] = dict(level="model_checking", technique="TLA+ TinyFlux.tla/CsvIO.tla; recorded executions with byte and directory observations judged by TLC (clauses 'unchanged', 'tmp')",
+CHECKS["C15"] = dict(level="model_checking", technique="TLA+ TinyFlux.tla/CsvIO.tla; recorded executions with byte and directory observations judged by TLC (clauses 'unchanged', 'tmp', 'fault_tmp')",
     text="ReadsChangeNothing / NoTempLeft are TLC-checked on the design. Binding: read-heavy histories with no-op removes/updates, raising calls and access modes r / r+ / a / w+ run under the proxies; "
          "TLC requires byte-identical files for reads, getters, iteration, reindex, no-match removes, no-change updates and forbidden writes (which must raise), and no new file in the private temp "
-         "directory or the database directory after any call, returned or raised.", note=_IO_NOTE, design_ref="DESIGN.md section 5, C15")
+         "directory or the database directory after any call, returned or raised - including calls in which one I/O call was made to fail (every I/O call of every operation of a few histories, clause fault_tmp).", note=_IO_NOTE, design_ref="DESIGN.md section 5, C15")
 CHECKS["C16"] = dict(level="model_checking", technique="TLA+ CsvIO.tla (AppendOnly, InsertCost); recorded I/O calls of inserts judged by TLC (clauses 'append', 'cost')",
     text="AppendOnly and InsertCost are invariants of the insert program in CsvIO.tla. Binding: I/O calls of inserts recorded on databases of 0-3000 rows, in and out of time order, auto_index on/off, "
          "after reads that left the file position mid-file; TLC requires only seek / write-at-end / flush / fsync / truncate-at-end, the old bytes as a prefix at every boundary, no read, a bounded "
